@@ -30,7 +30,7 @@ CS = ("csvm", "csvmw", "csvmu")
 
 def gen_problem(rng, pid, big):
     tr = rng.choice(["csvm", "csvm", "csvm", "csvmw", "epssvr", "oneclass"])
-    u = rng.random(); unc = tr == "csvm" and u < 0.25
+    unc = False
     n = rng.randint(4, 12) if rng.random() < 0.7 else rng.randint(13, 30 if big else 20)
     d = rng.randint(1, 3)
     kernel = rng.choice(["lin", "rbf", "rbf"]) if tr != "oneclass" else "rbf"
@@ -42,6 +42,9 @@ def gen_problem(rng, pid, big):
     p = {"pid": pid, "trainer": tr, "n": n, "d": d, "kernel": kernel, "gamma": rng.choice([0.125, 0.5, 1.0, 2.0]) if kernel == "rbf" else 0.0, "x": x}
     C = rng.choice([0.125, 1.0, 10.0, 100.0, 1000.0])
     p["Cneg"] = C; p["Cpos"] = C * (rng.choice([1, 1, 0.5, 4]) if tr in ("csvm", "csvmw") else 1)
+    # a quarter of the plain csvm problems go through the log-encoded parameter interface; the decision is drawn from a side
+    # stream so that the main random stream (and with it the problem population of earlier rounds) stays what it was
+    unc = tr == "csvm" and random.Random("csvmu:%s:%r" % (pid, x)).random() < 0.25
     if unc:
         # log-encoded regularisation parameters: the trainer gets log C through setParameterVector and uses exp(log C)
         p["trainer"] = tr = "csvmu"; p["logC"] = (math.log(p["Cneg"]), math.log(p["Cpos"]))
@@ -258,7 +261,7 @@ def main():
         for k in range(1500 if big else 150):
             p = gen_problem(ck.rng, "p%d" % k, big)
             for ci, c in enumerate(configs(p, ck.rng)): items.append((p, c, "p%d_%d" % (k, ci)))
-    cf = os.path.join(tmpd, "cases.txt")
+    cf = os.path.join(tmpd, "cases.txt" if ck.replay is None and os.path.realpath(REPO) == os.path.realpath("/repo") and ck.tier == "quick" else "cases_%d.txt" % os.getpid())
     open(cf, "w").write("\n".join(case_line(p, c, cid) for p, c, cid in items) + "\n")
     rc, out, err = sh([exe, cf], timeout=3000, env={"OMP_NUM_THREADS": "1", "OPENBLAS_NUM_THREADS": "1"})
     results = {}; hq = {}; hf = {}; hw = {}; hm = {}          # harness lines Q/F/M by (id, k), W by id (hex strings)
@@ -344,7 +347,11 @@ def main():
         allow_max[ak_] = max(allow_max.get(ak_, 0.0), 2 * tol / p["eps"])
         allow_max["slack_eq"] = max(allow_max["slack_eq"], slack)
         allow_max["bound_slack_term"] = max(allow_max["bound_slack_term"], abs(r[5]) * 2 * slack)
-    mf = os.path.join(tmpd, "model_in.txt"); open(mf, "w").write("\n".join(dl) + "\n")
+    mf = os.path.join(tmpd, os.path.basename(cf).replace("cases", "model_in"))
+    if cf.endswith("_%d.txt" % os.getpid()):
+        import atexit
+        atexit.register(lambda: [os.remove(f) for f in (cf, mf) if os.path.exists(f)])
+    open(mf, "w").write("\n".join(dl) + "\n")
     mrc, mout, merr = sh([model, mf], timeout=3000)
     if mrc != 0: raise RuntimeError("model driver failed: rc=%s %s" % (mrc, merr[-2000:]))
     mq = {}; mb = {}; mcoef = {}; mcert = {}
